@@ -307,3 +307,34 @@ pub fn symbols() -> Vec<(String, u16)> {
     list.sort();
     list
 }
+
+/// One raw token of the lexer: `Debug` rendering of its kind, byte offset and byte length.
+/// A lexer error ends the list with `("error:<diagnostic code>", offset, length)` of its first label.
+pub fn lex(src: &'static str) -> Vec<(String, usize, usize)> {
+    use crate::lexer::{cursor::Cursor, TokenKind};
+    use miette::Diagnostic as _;
+    let mut cursor = Cursor::new(src);
+    let mut tokens = Vec::new();
+    loop {
+        match cursor.advance_token() {
+            Ok(token) => {
+                let eof = token.kind == TokenKind::Eof;
+                tokens.push((format!("{:?}", token.kind), token.span.offs(), token.span.len()));
+                if eof {
+                    break;
+                }
+            }
+            Err(report) => {
+                let code = report.code().map(|code| code.to_string()).unwrap_or_default();
+                let (offset, len) = report
+                    .labels()
+                    .and_then(|mut labels| labels.next())
+                    .map(|label| (label.offset(), label.len()))
+                    .unwrap_or((0, 0));
+                tokens.push((format!("error:{}", code), offset, len));
+                break;
+            }
+        }
+    }
+    tokens
+}
